@@ -1,12 +1,14 @@
 """C02 - no lint fails internally on any input the parser accepts."""
 import json
+import os
 
 import common
+from common import cq_bytes, cq_list
 
 THEOREMS = ["c02_fatal_origin", "c02_framework", "c02_plain", "c02_walker_safe", "c02_walker_unchecked_refuted",
-            "c02_gentime_safe", "c02_gentime_guard_needed", "c02_bodies_total", "c02_gentime_range", "c02_dn_printable", "c02_crl_lints_range", "c02_crl_entry_order"]
+            "c02_gentime_safe", "c02_gentime_guard_needed", "c02_bodies_total", "c02_gentime_range", "c02_dn_printable", "c02_crl_lints_range", "c02_crl_entry_order", "c02_qc_assert_safe", "c02_qc_guard_needed"]
 
-BODIES_HEADER = """From ZL Require Import Base.Bytes Base.Corr Kernels.Bodies Kernels.Crl.
+BODIES_HEADER = """From ZL Require Import Base.Bytes Base.Corr Kernels.Bodies Kernels.Crl Kernels.QcStatem.
 From Coq Require Import ZArith.
 Open Scope Z_scope.
 Definition oz (x : out Z) : Z := match x with Val s => s | OOR => -1 end.
@@ -26,6 +28,10 @@ Fixpoint zl_ok (m o : list Z) : bool := match m, o with [], [] => true | x :: m'
 Definition chk_crl (c : crl_view * list Z) : bool := zl_ok (all_crl_lints (fst c)) (snd c).
 Definition chk_ocsp (c : Z * Z * Z) : bool := match c with (t, p, s) => o_this_update_not_after_produced_at t p =? s end.
 Definition chk_dnprint (c : list bytes * Z) : bool := oz (dn_not_printable (fst c)) =? snd c.
+Definition okind_eqb (a b : option qkind) : bool := match a, b with Some x, Some y => qkind_eqb x y | None, None => true | _, _ => false end.
+Definition chk_qc (c : option (list item) * qkind * result) : bool :=
+  match c with (outer, sought, o) => let r := parse_qc outer sought in
+    okind_eqb (r_dyn r) (r_dyn o) && Bool.eqb (r_present r) (r_present o) && Bool.eqb (r_noerr r) (r_noerr o) end.
 Definition chk_bmp (c : bytes * option (option (list Z))) : bool :=
   match parse_bmp (fst c), snd c with
   | OOR, None => true
@@ -44,8 +50,64 @@ BODY_STREAMS = [
     ("bmp", "chk_bmp", "Bodies.parse_bmp vs util.ParseBMPString (code units)"),
     ("crl", "chk_crl", "Crl.all_crl_lints (eight revocation-list lints, modelled in full) vs the real lints on corpus, re-dated and generated CRLs under both configurations"),
     ("ocsp", "chk_ocsp", "Crl.o_this_update_not_after_produced_at vs e_this_update_not_after_produced_at on corpus and generated responses"),
+    ("qc", "chk_qc", "QcStatem.parse_qc vs util.ParseQcStatem (dynamic type, IsPresent, error text empty) on generated qcStatements values, every statement kind sought"),
     ("dnprint", "chk_dnprint", "Bodies.dn_not_printable vs e_subject_dn_not_printable_characters on the attribute values of zoo and crafted subjects"),
 ]
+
+
+def load_audit():
+    aud = {}
+    for ln in open(os.path.join(common.VERIF, "panic_audit.txt")):
+        ln = ln.rstrip("\n")
+        if not ln or ln.startswith("#"):
+            continue
+        parts = ln.split(" :: ")
+        if len(parts) == 3:
+            aud[parts[0]] = (parts[1], parts[2])
+    return aud
+
+
+def panic_site_obligation(ctx, dynamic_failure_found):
+    """Translator: the places of the lint tree that can still panic (bounds checks the compiler could not prove away,
+    unchecked type assertions, explicit panics, integer division by a variable) are regenerated from the source and must
+    all be accounted for in panic_audit.txt; the kernel checks the inclusion."""
+    d = common.harness_json(["panicsites"], timeout=1800, env={"VERIF_BCE_CACHE": os.path.join(common.BUILD, "cache-bce")})["data"]
+    aud = load_audit()
+    residual, problems = [], []
+    for r in d["bounds"]:
+        residual.append(r["key"])
+        a = aud.get(r["key"])
+        if a and a[0] == "unreachable-from-lints" and r.get("in_lint_closure"):
+            problems.append((r["key"], "audited as unreachable from lints, but the function is now inside a lint's closure (%s:%d)" % (r["file"], r["line"])))
+    for r in d["other"]:
+        residual.append(r["key"])
+    gd = common.gendir("C02")
+    p = os.path.join(gd, "Obl_C02_panic_sites.v")
+    reach_bad = [k for k, _ in problems]
+    with open(p, "w") as f:
+        f.write("From ZL Require Import Base.Bytes.\nFrom Coq Require Import List Bool.\nImport ListNotations.\n")
+        f.write("(* residual panic sites of v3/lint, v3/lints, v3/util regenerated from the source (compiler bounds-check report + go/ssa), and the audited ones *)\n")
+        f.write("Definition residual : list bytes := %s.\n" % cq_list([cq_bytes(k) for k in residual]))
+        f.write("Definition audited : list bytes := %s.\n" % cq_list([cq_bytes(k) for k in sorted(aud)]))
+        f.write("Definition reachable_but_audited_unreachable : list bytes := %s.\n" % cq_list([cq_bytes(k) for k in reach_bad]))
+        f.write("Lemma every_site_audited : forallb (fun k => mem k audited) residual = true.\nProof. vm_compute. reflexivity. Qed.\n")
+        f.write("Lemma unreachable_still_unreachable : match reachable_but_audited_unreachable with nil => true | _ => false end = true.\nProof. vm_compute. reflexivity. Qed.\n")
+    ok, outp = common.coqc(p)
+    classes = {}
+    for k in residual:
+        c = aud.get(k, ("UNAUDITED", ""))[0]
+        classes[c] = classes.get(c, 0) + 1
+    ctx.oblige("Obl_C02_panic_sites: each of the %d places where the lint tree can still panic by indexing / slicing (compiler report) or by an unchecked type assertion, explicit panic or "
+               "integer division (go/ssa) is accounted for in panic_audit.txt %s" % (len(residual), json.dumps(classes, sort_keys=True)), ok, outp[-1200:])
+    ctx.notes["panic_sites"] = {"residual": len(residual), "by_class": classes, "stale_audit_entries": sorted(set(aud) - set(residual))[:20]}
+    if not ok:
+        for r in d["bounds"] + d["other"]:
+            if r["key"] not in aud:
+                where = "%s:%s" % (r.get("file", ""), r.get("line", "")) if "file" in r else "lints %s" % r.get("lints")
+                ctx.violation("panic-site-unaudited:" + r["key"], "a place where the lint tree can panic is not accounted for: %s (%s); no panicking input was found by the sweeps" % (r["key"], where),
+                              {"theorem_or_correspondence": "Gen.Obl_C02_panic_sites.every_site_audited", "site": r}, found_input=False)
+        for k, why in problems:
+            ctx.violation("panic-site-reachable:" + k, why, {"theorem_or_correspondence": "Gen.Obl_C02_panic_sites.unreachable_still_unreachable"}, found_input=False)
 
 
 def run(ctx):
@@ -71,6 +133,7 @@ def run(ctx):
         if fb:
             common.report_disagreements(ctx, name, fb, "Kernels.Bodies (" + name + ")", [])
     ctx.notes["bodies_stats"] = db.get("stats", {})
+    panic_site_obligation(ctx, mon or monb)
     st = d.get("stats", {})
     ctx.add_eval(st.get("linted", 0), distinct=len(d["data"].get("classes", {})), traces=st.get("linted", 0))
     ctx.cov["rule"] = ("directed generation (blind byte mutation finds nothing): every UTF8String explicitText up to length 2 (thorough: 3) over a 12-symbol alphabet of ASCII, control, "
